@@ -84,7 +84,7 @@ def run(module, cfg=None, *, cfg_text=None, workers=None, dump=False, simulate=N
     with open(os.path.join(rundir, cfgname), "w") as fh:
         fh.write(cfg_text)
     workers = workers or NCPU
-    java = ["java", "-XX:+UseParallelGC", "-Xmx8g", "-Xss32m"]
+    java = ["java", "-XX:+UseParallelGC", "-Xmx6g", "-Xss32m"]
     if dfs:
         java.append("-Dtlc2.tool.queue.IStateQueue=StateDeque")
     cmd = java + ["-cp", JARS, "tlc2.TLC", "-workers", str(workers), "-metadir",
